@@ -92,3 +92,57 @@ Proof.
   exists bs. split; [exact Hp|]. unfold read_tex, read_at. rewrite <- (pack_length _ _ _ Hp), slice_app, Hu.
   cbn [option_map]. rewrite map_map. cbn [getF]. rewrite map_id. reflexivity.
 Qed.
+
+(** ** Resource flags: the three places where bit 0x02 is handled agree.
+    For a configuration that passes [flags_ok] (complete enumeration of the one-byte field): an out-of-line resource is
+    stored with exactly bit 2 cleared, an inline one with exactly bit 2 set, all other bits as given; the reader's test
+    sends the first to its data block and takes the second as the value; the normalised flags are stable (saving what
+    was read stores the same byte). *)
+Lemma in_all_bytes : forall f, (0 <= f < 256)%Z -> In f all_bytes.
+Proof.
+  intros f H. unfold all_bytes. apply in_map_iff. exists (Z.to_nat f). split; [lia|].
+  apply in_seq. lia.
+Qed.
+
+Lemma byte_facts : forallb (fun f =>
+    (0 <=? clear2 f)%Z && (clear2 f <? 256)%Z && (0 <=? set2 f)%Z && (set2 f <? 256)%Z
+    && Z.eqb (Z.land (clear2 f) 2) 0 && Z.eqb (Z.land (set2 f) 2) 2
+    && Z.eqb (clear2 (clear2 f)) (clear2 f) && Z.eqb (set2 (set2 f)) (set2 f)) all_bytes = true.
+Proof. vm_compute. reflexivity. Qed.
+
+Theorem flags_roundtrip : forall c, flags_ok c = true -> forall f, (0 <= f < 256)%Z ->
+  fl_eval (fl_offset c) f = clear2 f /\ fl_eval (fl_inline c) f = set2 f
+  /\ ft_eval (fl_test c) (fl_eval (fl_offset c) f) = true /\ ft_eval (fl_test c) (fl_eval (fl_inline c) f) = false
+  /\ (0 <= clear2 f < 256)%Z /\ (0 <= set2 f < 256)%Z
+  /\ fl_eval (fl_offset c) (clear2 f) = clear2 f /\ fl_eval (fl_inline c) (set2 f) = set2 f.
+Proof.
+  intros c H f Hf. unfold flags_ok in H.
+  apply andb_prop in H. destruct H as [H _].
+  apply andb_prop in H. destruct H as [H H1].
+  apply andb_prop in H. destruct H as [H H2].
+  unfold offset_flags_ok in H. unfold inline_flags_ok in H2. unfold read_test_ok in H1.
+  rewrite forallb_forall in H, H2, H1.
+  pose proof byte_facts as BF. rewrite forallb_forall in BF. specialize (BF _ (in_all_bytes _ Hf)).
+  cbv beta in BF. rewrite !andb_true_iff in BF. destruct BF as [[[[[[[A1 A2] A3] A4] A5] A6] A7] A8].
+  apply Z.leb_le in A1. apply Z.ltb_lt in A2. apply Z.leb_le in A3. apply Z.ltb_lt in A4.
+  apply Z.eqb_eq in A5. apply Z.eqb_eq in A6. apply Z.eqb_eq in A7. apply Z.eqb_eq in A8.
+  assert (Hc : (0 <= clear2 f < 256)%Z) by lia.
+  assert (Hs : (0 <= set2 f < 256)%Z) by lia.
+  pose proof (H _ (in_all_bytes _ Hf)) as Ho. apply Z.eqb_eq in Ho.
+  pose proof (H2 _ (in_all_bytes _ Hf)) as Hi. apply Z.eqb_eq in Hi.
+  pose proof (H1 _ (in_all_bytes _ Hc)) as Tc. apply eqb_prop in Tc.
+  pose proof (H1 _ (in_all_bytes _ Hs)) as Ts. apply eqb_prop in Ts.
+  pose proof (H _ (in_all_bytes _ Hc)) as Hoc. apply Z.eqb_eq in Hoc.
+  pose proof (H2 _ (in_all_bytes _ Hs)) as His. apply Z.eqb_eq in His.
+  rewrite Ho, Hi, Tc, Ts, Hoc, His. rewrite A5, A6, A7, A8. repeat split; try reflexivity; lia.
+Qed.
+
+Example flags_ok_inhabited : flags_ok good_flagcfg = true.
+Proof. vm_compute. reflexivity. Qed.
+(** the seeded shape `res.flags & 2` for out-of-line entries: flags 0x40 are stored as 0, and flags 0x42 are stored as 2,
+    which the reader takes as an inline value. *)
+Theorem masked_flags_refuted :
+  flags_ok masked_flagcfg = false
+  /\ fl_eval (fl_offset masked_flagcfg) 64 = 0%Z
+  /\ ft_eval (fl_test masked_flagcfg) (fl_eval (fl_offset masked_flagcfg) 66) = false.
+Proof. vm_compute. repeat split; reflexivity. Qed.
